@@ -246,10 +246,23 @@ func TestC14Standin(t *testing.T) {
 			return res{}, false
 		}
 	}
-	for i := 0; i < n; i++ {
-		s := c14Query(rng, rng.Intn(3))
-		if i%3 == 2 {
-			s = c14Damage(rng, s)
+	// deep nesting: long runs of negations and brackets (the parser recurses once per level; a run that
+	// exhausts the stack ends the test binary, which the runner reports with the text in flight)
+	var deep []string
+	for _, d := range []int{10, 100, 499, 501, 5000, 100000, 1 << 20} {
+		deep = append(deep, strings.Repeat("-", d)+"id:1", strings.Repeat("(", d)+"id:1"+strings.Repeat(")", d),
+			strings.Repeat("-(", d)+"id:1"+strings.Repeat(")", d), strings.Repeat("(", d)+"id:1", strings.Repeat("!", d))
+	}
+	for i := 0; i < n+len(deep); i++ {
+		var s string
+		if i < len(deep) {
+			s = deep[i]
+			flush(fmt.Sprintf("%.40s... (%d bytes)", s, len(s)))
+		} else {
+			s = c14Query(rng, rng.Intn(3))
+			if i%3 == 2 {
+				s = c14Damage(rng, s)
+			}
 		}
 		// normal forms that multiply out (negated disjunctions of lists) are outside the promptness claim
 		if strings.Count(s, ",")+strings.Count(s, " or ")+strings.Count(s, "-(") > 6 {
